@@ -49,6 +49,8 @@ func IMMSites() []Site {
 		{Tag: "T2 incdec x2.M++", Stmt: "x2.M++", Subj: SubjT2, Codes: i3},
 		{Tag: "T2 mut assign x2.F", Stmt: "x2.F = 1", Subj: SubjT2Mut, Codes: i1, Core: true},
 		{Tag: "T2 mut compound x2.F+=", Stmt: "x2.F += 1", Subj: SubjT2Mut, Codes: i2},
+		// the importing package's own same-named type
+		{Tag: "own-T assign (&T{}).F", Stmt: "(&T{}).F = 1", Subj: SubjOwnT, Codes: i1, Core: true, OnlyInU: true},
 		// twin
 		{Tag: "twin assign tw.F", Stmt: "tw.F = 1", Subj: SubjTwin, Core: true},
 		{Tag: "twin incdec tp.F++", Stmt: "tp.F++", Subj: SubjTwin},
@@ -99,6 +101,9 @@ func CTORSites() []Site {
 		{Tag: "T2 lit T2{}", Stmt: "_ = {T2}{}", Subj: SubjT2, Codes: c1, Core: true, PkgLevel: "var $g = {T2}{}"},
 		{Tag: "T2 new(T2)", Stmt: "_ = new({T2})", Subj: SubjT2, Codes: c2},
 		{Tag: "T2 var v T2", Stmt: "var $v {T2}; _ = $v", Subj: SubjT2, Codes: c3},
+		// the importing package's own same-named type
+		{Tag: "own-T lit T{}", Stmt: "_ = T{}", Subj: SubjOwnT, Codes: c1, Core: true, OnlyInU: true},
+		{Tag: "own-T var v T", Stmt: "var $v T; _ = $v", Subj: SubjOwnT, Codes: c3, OnlyInU: true},
 		// silent forms
 		{Tag: "silent var p *T", Stmt: "var $v {PT}; _ = $v", Subj: SubjSilent, Core: true, PkgLevel: "var $g {PT}"},
 		{Tag: "silent var _ T", Stmt: "var _ {T}", Subj: SubjSilent, PkgLevel: "var _ {T}"},
@@ -138,6 +143,13 @@ func Expect(fam *Family, st *Site, encl EnclKind, file int, inU bool, m Mix) []s
 	}
 	if st.Subj == SubjTwin || st.Subj == SubjSilent {
 		return nil
+	}
+	if st.Subj == SubjOwnT {
+		// annotated independently of the mix; exempt only inside u's own NewT / Alt
+		if encl == ECtorNewT || encl == ECtorAlt {
+			return nil
+		}
+		return st.Codes
 	}
 	inCtorOfT := !inU && contains(m.CtorNames(), encl.fixedName())
 	inCtorOfN := !inU && m.Ctor > 0 && encl == ECtorNewN
